@@ -228,6 +228,17 @@ def summarise(P, f, cls_name, plain=False):
             if isinstance(st, ast.Assign) and len(st.targets) == 1:
                 bind(st.targets[0], st.value)
                 continue
+            if isinstance(st, ast.If) and isinstance(st.test, ast.BoolOp) and len(st.test.values) >= 2:
+                # `if A or B: X else: Y`  ==  `if A: X elif B: X else: Y` ;  `if A and B: X else: Y`  ==  `if A: (if B: X else: Y) else: Y`
+                a_, rest_ = st.test.values[0], st.test.values[1:]
+                b_ = rest_[0] if len(rest_) == 1 else ast.BoolOp(op=st.test.op, values=list(rest_))
+                if isinstance(st.test.op, ast.Or):
+                    inner = ast.If(test=b_, body=st.body, orelse=st.orelse)
+                    st = ast.If(test=a_, body=st.body, orelse=[inner])
+                else:
+                    inner = ast.If(test=b_, body=st.body, orelse=st.orelse)
+                    st = ast.If(test=a_, body=[inner], orelse=st.orelse)
+                ast.copy_location(st, stmts[i]); ast.copy_location(inner, stmts[i])
             if isinstance(st, ast.If):
                 saved = dict(c.env)
                 walk(list(st.body) + list(stmts[i + 1:]), guards + [guard_text(st.test, True)])
